@@ -844,6 +844,10 @@ class Channel(ClosingContextManager):
         """
         while s:
             sent = self.send(s)
+            if sent == 0:
+                # send() only returns 0 when the channel is closed or shut
+                # down for writing: nothing more can ever be sent
+                raise socket.error("Socket is closed")
             s = s[sent:]
         return None
 
@@ -865,6 +869,8 @@ class Channel(ClosingContextManager):
         """
         while s:
             sent = self.send_stderr(s)
+            if sent == 0:
+                raise socket.error("Socket is closed")
             s = s[sent:]
         return None
 
